@@ -403,6 +403,7 @@ static void run_case(Rng& r, Ctx& c)
           double tolE = CTOL * EPS * (double)s.cond * ((double)te + 1e-300), tolV = CTOL * EPS * (double)s.cond * ((double)(tq * tq) + 1e-300);
           std::string det = fmt("target %d combination %d cond %.3g %s", it, i, (double)s.cond, k.sig().c_str());
           c.probe("matLC");
+          if (k.driftOrder < 0) c.probe("matLC-sk"); // simple cokriging: the known means enter the combination
           c.close("lc-estim", "C01:matLC:estim:" + cls, cE[it], (double)we, tolE, det);
           c.close("lc-stdev2", "C01:matLC:stdev:" + cls, cS[it] * cS[it], std::max(0., (double)wv), tolV, det);
           if (wantVarz) c.close("lc-varz", "C01:matLC:varz:" + cls, cV[it], (double)wz, tolV, det);
